@@ -76,6 +76,8 @@ for g, nt, tk, ty, addr in PRODS:
 for nt, src, ty, uty in (("s_byte_num", "u_byte_num", "i8", "u8"), ("s_word_num", "u_word_num", "i16", "u16")):
     out += (f"//@action {G['pp']} {nt} = {src} as nm_pp_{nt}_cast\n//@contract\n//@dropunused\n"
             f"    ensures r as {uty} == n, //# C14,C11 number.unsigned_literal_keeps_its_bit_pattern\n//@before n as {ty} :: proof {{ assert((n as {ty}) as {uty} == n) by (bit_vector); }}\n//@end\n\n")
+out += (f"//@action {G['ld']} s_byte_num = u_byte_num as nm_ld_s_byte_num_cast\n//@contract\n//@dropunused\n"
+        f"    ensures r as u8 == n, //# C12 number.unsigned_literal_keeps_its_bit_pattern\n//@before n as i8 :: proof {{ assert((n as i8) as u8 == n) by (bit_vector); }}\n//@end\n\n")
 out += (f"//@action {G['pp']} raw_addr = offset as nm_pp_raw_addr_offset\n//@contract\n//@dropunused\n"
         f"    ensures r == o, //# C14,C11 number.offset_is_the_address_as_it_stands\n//@end\n\n")
 out += "} // verus!\nfn main() {}\n"
